@@ -327,6 +327,9 @@ var c08Decor = [][]string{
 	{"lib/mid_dle", "github.com/goose-lang/goose/machine/filesys", pGOKVTIME},
 	{pCFMUTEX, "lib/zeta", "lib/trusted_t1", "lib/alpha"},
 	{"in-ner/trusted_t2", "lib/trusted_t1", "lib/zeta", "lib/alpha", "lib/mid_dle"},
+	// an ordinary package below a trusted_* directory, a package whose name merely contains "trusted_"
+	{"lib/trusted_t1/inner", "lib/trusted_t1", "lib/alpha"},
+	{"lib/not_trusted_x", "lib/trusted_t1/inner", "lib/zeta"},
 }
 
 type c08Carrier struct {
@@ -399,7 +402,7 @@ func c08MainModule() *c08Module {
 	m := &c08Module{Name: "main", ModPath: "example.com/m-x/y.z", GroveHides: []string{pMD, pMAD, pPD, pPAD}}
 	// plain library packages (no FFI), some in the trusted namespace, some below
 	// directories with '.'/'-'
-	for _, d := range []string{"lib/zeta", "lib/alpha", "lib/mid_dle", "lib/trusted_t1", "in-ner/trusted_t2", "in-ner/d.ot/plain"} {
+	for _, d := range []string{"lib/zeta", "lib/alpha", "lib/mid_dle", "lib/trusted_t1", "in-ner/trusted_t2", "in-ner/d.ot/plain", "lib/trusted_t1/inner", "lib/not_trusted_x"} {
 		m.add(d, "leaf")
 	}
 	// packages whose own last component has '.'/'-' (importing them is the known-defect atom)
